@@ -367,9 +367,20 @@ pub fn eval(c: &ImgCase) -> CaseOut {
                 let ps = p.join("/");
                 let (parent, name) = (p[..p.len() - 1].to_vec(), p[p.len() - 1].clone());
                 let old = truth_lookup(&truth.root, &p).unwrap().data.clone().unwrap_or_default();
-                let half = old.len() / 2;
-                let extra: Vec<u8> = (0..(1 + pool.below(3000) as usize)).map(|i| (i * 7 + 3) as u8).collect();
                 let trunc = kind == 4;
+                // truncation point: the middle, the start (the entry must stop naming any cluster - both words of it on
+                // FAT32), the first cluster boundary, or the end (nothing to cut)
+                let half = if trunc {
+                    match pool.below(5) {
+                        0 | 1 => 0,
+                        2 => (g.cluster_size() as usize).min(old.len()),
+                        3 => old.len(),
+                        _ => old.len() / 2,
+                    }
+                } else {
+                    old.len() / 2
+                };
+                let extra: Vec<u8> = (0..(1 + pool.below(3000) as usize)).map(|i| (i * 7 + 3) as u8).collect();
                 let mut newdata = old[..half].to_vec();
                 if !trunc {
                     newdata.extend_from_slice(&extra);
@@ -387,7 +398,7 @@ pub fn eval(c: &ImgCase) -> CaseOut {
                     }
                 }
                 Some((
-                    Mutation { what: format!("{}({:?})", if trunc { "truncate to half" } else { "overwrite from the middle" }, ps), affected_files: vec![p.clone()], affected_dirs: vec![parent] },
+                    Mutation { what: format!("{}({:?})", if trunc { "seek + truncate" } else { "overwrite from the middle" }, ps), affected_files: vec![p.clone()], affected_dirs: vec![parent] },
                     Box::new(move |s: &Session| {
                         let mut f = s.root().open_file(&ps).map_err(|e| format!("open: {:?}", e))?;
                         f.seek(fatfs::SeekFrom::Start(half as u64)).map_err(|e| format!("seek: {:?}", e))?;
